@@ -95,9 +95,12 @@ func workerMain(args []string) int {
 	debug.SetMaxStack(256 << 20)
 	if lim := env("VERIF_RLIMIT_AS_MB", ""); lim != "" {
 		if mb, err := strconv.Atoi(lim); err == nil {
-			v := uint64(mb) << 20
-			_ = syscall.Setrlimit(syscall.RLIMIT_AS, &syscall.Rlimit{Cur: v, Max: v})
+			chk.RlimitMB = mb
 		}
+	}
+	if chk.RlimitMB > 0 {
+		v := uint64(chk.RlimitMB) << 20
+		_ = syscall.Setrlimit(syscall.RLIMIT_AS, &syscall.Rlimit{Cur: v, Max: v})
 	}
 	c := &Ctx{ID: id, Tier: *tier, Seed: *seed, Repo: Repo(), EvyBin: os.Getenv("VERIF_EVY"), Tmp: *tmp, Res: NewResult(), Replay: *replay}
 	if c.Tmp == "" {
@@ -578,19 +581,37 @@ func crashSite(stderr string) string {
 			break
 		}
 	}
+	if strings.HasPrefix(msg, "runtime: goroutine stack exceeds") {
+		msg = "runtime: goroutine stack exceeds limit"
+	}
 	if len(msg) > 80 {
 		msg = msg[:80]
 	}
 	site := ""
-	for _, l := range strings.Split(stderr, "\n") {
+	lines := strings.Split(stderr, "\n")
+	for i, l := range lines {
 		l = strings.TrimSpace(l)
-		if i := strings.Index(l, "/pkg/"); i >= 0 && strings.Contains(l, ".go:") && !strings.Contains(l, "/verif/") {
-			site = l[i+1:]
-			if j := strings.Index(site, " "); j > 0 {
-				site = site[:j]
+		if j := strings.Index(l, "/pkg/"); j >= 0 && strings.Contains(l, ".go:") && !strings.Contains(l, "/verif/") {
+			site = l[j+1:]
+			if k := strings.Index(site, ":"); k > 0 {
+				site = site[:k]
+			}
+			// the function name is on the line before the file line
+			if i > 0 {
+				fn := strings.TrimSpace(lines[i-1])
+				if k := strings.Index(fn, "("); k > 0 {
+					fn = fn[:k]
+				}
+				if k := strings.LastIndex(fn, "."); k >= 0 {
+					fn = fn[k+1:]
+				}
+				site += ":" + fn
 			}
 			break
 		}
+	}
+	if strings.Contains(msg, "stack") && strings.Contains(stderr, "evalFunccall") {
+		site = "recursion-through:evalFunccall"
 	}
 	return msg + "@" + site
 }
